@@ -334,3 +334,7 @@ pub struct StoreMeta {
     /// The next free page number.
     pub bump: u32,
 }
+
+#[cfg(kani)]
+#[path = "/verif/units/kani/allocator.rs"]
+mod verif_kani;
